@@ -39,6 +39,9 @@ func genC18(r *Rng, tier string) []*Case {
 			in.Freq = ip(2)
 			in.Max = ip(3 + r.Intn(20))
 		}
+		if r.Chance(40) {
+			in.Repeat = 1 // the same stats struct was used by an earlier identical call: it must be reset
+		}
 		cs = append(cs, mk("Compute", in))
 	}
 	return cs
